@@ -414,7 +414,7 @@ def check_reject(case):
     return (f"reject.{kind}", f"testbench `{kind}` was accepted", w)
 
 
-SAVE_GIVEN = ["mode:ALL", "mode:NONE", "mode:SELECTED", "sig", "sigs", "name:xtop.n1", "name:all", "name:none", "name:selected",
+SAVE_GIVEN = ["mode:ALL", "mode:NONE", "mode:SELECTED", "sig", "sigs", "port-sig", "sigs-with-port", "name:xtop.n1", "name:all", "name:none", "name:selected",
               "name:ALL", "name:NONE", "name:None", "name:0", "name:s", "names:a,b,c", "names:all", "names:none,all",
               "names:s,t"]
 
@@ -436,6 +436,10 @@ def check_save_target(case):
         targ, want = tb.s, ("signal", "s")
     elif kind == "sigs":
         targ, want = [tb.s, tb.t], ("signal", "s,t")
+    elif kind == "port-sig":
+        targ, want = tb.VSS, ("signal", "VSS")           # the testbench's own port is a Signal like any other
+    elif kind == "sigs-with-port":
+        targ, want = [tb.t, tb.VSS], ("signal", "t,VSS")
     elif kind == "name":
         targ, want = text, ("signal", text)
     else:
@@ -513,7 +517,7 @@ def run(ctx):
                     rule="every documented form of save target as GIVEN (modes, a Signal, a list of Signals, a name, a list "
                          "of names - incl. names that read like a mode, a number or a testbench signal) x three ways of "
                          "attaching it (constructor, Sim.save, class-defined): exported kind and value == the given ones",
-                    bound="18 targets x 3 routes", key_of=repr)
+                    bound="20 targets x 3 routes", key_of=repr)
     ctx.run_bounded("re-export", [("reexport", k) for k in ("export-add-export", "shared-in-list", "shared-separately", "edit-in-place")],
                     check_reexport, rule="export, add unnamed analyses, export twice more; one unnamed analysis object "
                                          "shared by two Sims exported in one list / one by one: generated names distinct "
